@@ -1900,7 +1900,10 @@ class GroupBy:
         pd.Series or pd.DataFrame
             Ratio of subset aggregated values to total aggregated values for each group.
         """
-        # check for nullity
+        # both masks follow the common length / index rules (`&` would label-align two Series)
+        self._preprocess_arguments(values, subset_mask)
+        if global_mask is not None:
+            self._preprocess_arguments(values, global_mask)
         kwargs = dict(agg_func=agg_func, margins=margins, values=values)
         return self.agg(**kwargs, mask=subset_mask & global_mask) / self.agg(
             **kwargs, mask=global_mask
